@@ -1008,7 +1008,9 @@ class PolygonalROI(VertexROIBase):
         center = self.center() if center is None else center
         dtheta = theta - self.theta
 
-        if self.defined() and not np.isclose(dtheta % np.pi, 0.0, atol=1e-9):
+        # Unlike a rectangle or an ellipse, a polygon is in general not
+        # symmetric under a half turn, so only full turns can be skipped
+        if self.defined() and not np.isclose(dtheta % (2 * np.pi), 0.0, atol=1e-9):
             dx, dy = np.array([self.vx, self.vy]) - np.array(center).reshape(2, 1)
             self.vx, self.vy = (rotation_matrix_2d(dtheta) @ (dx, dy) +
                                 np.array(center).reshape(2, 1)).tolist()
